@@ -200,7 +200,9 @@ def build_set(langs_spans, layout_seed):
 def groups_of(codes_lists):
     """WebVTT layout groups per caption, from the model (request 205)"""
     flat = [c for cl in codes_lists for c in cl]
-    res = oracle_batch([(205, flat)])[0] if flat else []
+    res = []
+    for part in oracle_batch([(205, flat[i:i + 400]) for i in range(0, len(flat), 400)]):
+        res.extend(part)
     out, i = [], 0
     for cl in codes_lists:
         out.append(res[i:i + len(cl)])
